@@ -57,6 +57,7 @@ type c06Conn struct {
 	deadline time.Time
 	log      []c06Read
 	sets     []bool // SetReadDeadline calls: true = armed, false = cleared
+	armed    []time.Time // every non-zero read deadline the sniffer armed, in order
 	closed   bool
 }
 
@@ -142,6 +143,9 @@ func (c *c06Conn) SetDeadline(t time.Time) error {
 func (c *c06Conn) SetReadDeadline(t time.Time) error {
 	c.deadline = t
 	c.sets = append(c.sets, !t.IsZero())
+	if !t.IsZero() {
+		c.armed = append(c.armed, t)
+	}
 	return nil
 }
 func (c *c06Conn) SetWriteDeadline(t time.Time) error { return nil }
@@ -214,6 +218,13 @@ type c06Result struct {
 	ElapsedMs float64    `json:"elapsed_ms"`
 	ArmedLeft bool       `json:"armed_left"` // a read deadline is still armed after sniffing
 	Slow      bool       `json:"slow,omitempty"` // a generous harness deadline was hit: the case must be retried
+	// Deadlines: every read deadline armed during SniffTcp, as nanoseconds after the instant just BEFORE the
+	// sniffer was constructed; CtorNs: how long the construction took; TimeoutNs: the sniff timeout.  A sniffer
+	// that bounds the whole sniff arms every read with construction time + timeout, i.e. every value lies in
+	// [TimeoutNs, TimeoutNs+CtorNs] and all are equal - a deterministic observable, independent of machine load.
+	Deadlines []int64 `json:"deadlines"`
+	CtorNs    int64   `json:"ctor_ns"`
+	TimeoutNs int64   `json:"timeout_ns"`
 	Steps     []c06Step  `json:"steps,omitempty"`
 }
 
@@ -272,7 +283,12 @@ func c06RunTcp(cs c06Case) (res c06Result) {
 	if to <= 0 {
 		to = 200 * time.Millisecond
 	}
+	tBefore := time.Now()
 	sn := NewConnSniffer(conn, to)
+	tAfter := time.Now()
+	// a millisecond passes between construction and use: a deadline computed in the read path instead of the
+	// constructor is then strictly later than construction time + timeout, also for a single read
+	time.Sleep(time.Millisecond)
 	// NOTE: the sniffer is deliberately not Closed: its pooled buffer must not be handed to the next
 	// case, so that every case starts from a fresh buffer (deterministic first read window).
 	t0 := time.Now()
@@ -292,6 +308,11 @@ func c06RunTcp(cs c06Case) (res c06Result) {
 	}()
 	res.ElapsedMs = float64(time.Since(t0).Microseconds()) / 1000
 	res.SniffLog = len(conn.log)
+	res.Deadlines = []int64{}
+	for _, d := range conn.armed {
+		res.Deadlines = append(res.Deadlines, d.Sub(tBefore).Nanoseconds())
+	}
+	res.CtorNs, res.TimeoutNs = tAfter.Sub(tBefore).Nanoseconds(), to.Nanoseconds()
 	if sn.Sniffer.buf != nil {
 		res.Buf = hex.EncodeToString(sn.Sniffer.buf.Bytes())
 		res.Cap = sn.Sniffer.buf.Cap()
